@@ -448,6 +448,35 @@ CLAIMED = {
              "half, gluing over the history). Known finding C11/trailing-for-not-run: a toplevel `for` as the last expression of "
              "a request is left pending after its first iteration (the eval-up-to special case leaks into `run`).",
         design="§7 C11"),
+
+    "C20": dict(
+        category="translation_validation",
+        technique="per-input validation by Lean decision procedures (hoistCheck, funextCheck, proved sound for the let-hoist / function-extraction relations) on the real parser's trees + purity lemma + text/parse/run-before-after oracle",
+        text="Every extraction performed by the real tools on generated assignment-free programs (1800 per quick run: 900 per tool, "
+             "all six enclosing constructs) is judged by the Lean checkers on the (before, after) trees from the real parser: the "
+             "output must be exactly `let n = e` inserted immediately before the enclosing statement in the same block with the "
+             "selected occurrence replaced (IsLetHoist), or a new toplevel function over e's free variables in order with a call "
+             "in place (IsFunExtract), and e must be Pure. Proved: the checkers are sound for the relations; a call-free pure "
+             "expression never changes store or output (pure_keeps_state_partial); after `let n = e` the use n evaluates like e "
+             "(hoisted_use_partial). Oracle: independent text expectation, the output parses, and where the original ran without "
+             "error the result prints the same and ends the same.",
+        note=TB + "PARTIAL: the behaviour-preservation theorems let_hoist_sound / fun_extract_sound are NOT proved (they need a "
+             "simulation up to a store injection); behaviour preservation is decided per input by the oracle. Holds with the "
+             "extract-function hint fix.",
+        design="§7 C20"),
+    "C21": dict(
+        category="translation_validation",
+        technique="per-input validation by Lean decision procedures (dbgwrapCheck, annotCheck) on the real parser's trees + Lean congruence proof that wrapping in an identity-like call preserves the run + check/run-before-after oracle",
+        text="Every dbg wrap (1500 per quick run over 17 node kinds) and every suggested annotation (let / return positions, ~600 "
+             "hints) produced by the real tools on generated programs is matched against the schema by the Lean checkers on the "
+             "real trees. Proved for all programs and all fuel (closure-free RefSem): replacing any set of nodes e by wrap e, "
+             "where wrap e evaluates like e in every state, preserves the run (eval_congr_partial); fuel monotonicity; dbg(e) "
+             "behaves like e up to a fuel factor (dbg_identity_partial); a hinted binding runs the same unless the hint check "
+             "itself fails (annot_sound_partial). Whether the SUGGESTED hint passes is decided per input: no new `check` "
+             "diagnostic, same stdout, same end of run.",
+        note=TB + "The semantic theorems cover the closure-free restriction of the reference semantics; closures are covered by the "
+             "relation and the oracle. Parameter hints are not modelled. Holds with the unwritable-types fix.",
+        design="§7 C21"),
 }
 
 NOT_YET = {}
